@@ -61,6 +61,13 @@ func c13Property(t *rapid.T, st *Stats) {
 	st.CaseSample(prog.lines(), trace, nt, cl...)
 	if !finished {
 		st.Add("program-did-not-finish", 1) // hangs are judged by C12
+		// the server is closed by the deferred cleanup: not while requests are still running (that race between Close
+		// and handlers is outside the property, which is about requests and background jobs)
+		select {
+		case <-lastProgramDone:
+		case <-time.After(5 * time.Minute):
+			t.Skip("clients still running after 5 minutes")
+		}
 	}
 	// let the ticker and expiry timers run against the quiescent store for a moment, then Close (in cleanup)
 	time.Sleep(2 * freq)
